@@ -343,3 +343,69 @@ func famUnary(quick bool, types []fl.TInt) []*prog.Case {
 	}
 	return out
 }
+
+// ------------------------------------------------------------------ implicit widening
+//
+// famImplicit: a value of integer type S used where T is expected WITHOUT a cast, in every
+// assignment-like position, for every ordered pair of integer types. Whether the compiler allows
+// the conversion is C11's business (a rejection is not a failure here: Tag "may-reject"); when it
+// does allow it, the running program must see the same value.
+func famImplicit(quick bool, types []fl.TInt) []*prog.Case {
+	var out []*prog.Case
+	positions := []string{"let", "assign", "arg", "return", "field", "elem", "method-arg", "second-arg"}
+	for _, sT := range types {
+		for _, tT := range types {
+			if sT == tT || !tT.Fits(sT.Min()) || !tT.Fits(sT.Max()) {
+				continue // only embeddings: anything else has to be rejected (C11)
+			}
+			vals := []*big.Int{sT.Min(), big.NewInt(5), sT.Max()}
+			if !sT.Signed {
+				vals = vals[1:]
+			}
+			for _, pos := range positions {
+				for _, v := range vals {
+					sT, tT, pos, v := sT, tT, pos, v
+					c := mk(fmt.Sprintf("C01/implicit/%s->%s/%s/%s", sT, tT, pos, vname(v, sT)), func(k K) *fl.Program {
+						p := &fl.Program{}
+						a := fl.V("a")
+						body := []fl.Stmt{&fl.Let{Name: "a", T: sT, Init: fl.LB(sT, v)}}
+						switch pos {
+						case "let":
+							body = append(body, &fl.Let{Name: "b", T: tT, Init: a}, fl.P(fl.V("b")))
+						case "assign":
+							body = append(body, &fl.Let{Name: "b", T: tT, Init: fl.L(tT, 1)}, &fl.Assign{LHS: fl.V("b"), RHS: a}, fl.P(fl.V("b")))
+						case "arg":
+							p.Funcs = append(p.Funcs, &fl.Func{Name: k.N("w"), Params: []fl.Param{{"v", tT}}, Ret: tT, Body: []fl.Stmt{&fl.Return{X: fl.V("v")}}})
+							body = append(body, fl.P(fl.C(k.N("w"), a)))
+						case "second-arg":
+							p.Funcs = append(p.Funcs, &fl.Func{Name: k.N("w2"), Params: []fl.Param{{"u", fl.I8}, {"v", tT}}, Ret: tT, Body: []fl.Stmt{&fl.Return{X: fl.V("v")}}})
+							body = append(body, fl.P(fl.C(k.N("w2"), fl.L(fl.I8, 3), a)))
+						case "return":
+							p.Funcs = append(p.Funcs, &fl.Func{Name: k.N("r"), Params: []fl.Param{{"v", sT}}, Ret: tT, Body: []fl.Stmt{&fl.Return{X: fl.V("v")}}})
+							body = append(body, fl.P(fl.C(k.N("r"), a)))
+						case "field":
+							st := &fl.TStruct{Name: k.N("Wd"), Fields: []fl.Field{{"P", fl.I8}, {"W", tT}, {"Q", fl.I8}}}
+							p.Structs = append(p.Structs, st)
+							body = append(body, &fl.Let{Name: "s", Init: &fl.StructLit{T: st, Vals: []fl.Expr{fl.L(fl.I8, 1), a, fl.L(fl.I8, 2)}}},
+								fl.P(fl.F(fl.V("s"), "W")), fl.P(fl.F(fl.V("s"), "P")), fl.P(fl.F(fl.V("s"), "Q")))
+						case "elem":
+							body = append(body, &fl.Let{Name: "e", T: fl.TArr{N: 2, Elem: tT}, Init: &fl.ArrLit{Elems: []fl.Expr{a, fl.L(tT, 1)}}},
+								fl.P(fl.Ix(fl.V("e"), fl.L(fl.I32, 0))), fl.P(fl.Ix(fl.V("e"), fl.L(fl.I32, 1))))
+						case "method-arg":
+							st := &fl.TStruct{Name: k.N("Rc"), Fields: []fl.Field{{"A", fl.I32}}}
+							p.Structs = append(p.Structs, st)
+							p.Funcs = append(p.Funcs, &fl.Func{Name: "keep", Recv: &fl.Param{Name: "s", T: st}, Params: []fl.Param{{"v", tT}}, Ret: tT, Body: []fl.Stmt{&fl.Return{X: fl.V("v")}}})
+							body = append(body, &fl.Let{Name: "rc", Init: &fl.StructLit{T: st, Vals: []fl.Expr{fl.L(fl.I32, 1)}}}, fl.P(&fl.MCall{Recv: fl.V("rc"), Name: "keep", Args: []fl.Expr{a}}))
+						}
+						p.Funcs = append(p.Funcs, &fl.Func{Name: "main", Body: body})
+						return p
+					})
+					c.Tag = "may-reject"
+					c.NoPack = true // a rejected case must not take its pack along
+					out = append(out, c)
+				}
+			}
+		}
+	}
+	return out
+}
